@@ -12,7 +12,7 @@ use crate::reference::{
 use crate::rng::{mix, Rng};
 use crate::run::{run_case, Ctor, Draw, Item, IterHist, Load, RKind, RunOut, StaticHist, StaticItem};
 
-pub const N_FAULT_KINDS: usize = 24;
+pub const N_FAULT_KINDS: usize = 26;
 pub const FAULT_NAMES: [&str; N_FAULT_KINDS] = [
     "-",
     "F1_driver_error_in_constructor",
@@ -38,6 +38,8 @@ pub const FAULT_NAMES: [&str; N_FAULT_KINDS] = [
     "F21_rerun_or_reparse",
     "F22_vars_inspection",
     "F23_caller_continues_after_error_item",
+    "F24_second_device_with_other_layout_on_same_test",
+    "F25_static_rows_requested_before_dynamic_run",
 ];
 
 #[derive(Clone, Debug)]
@@ -631,6 +633,7 @@ fn corpus_case(prop: Prop, rng: &mut Rng) -> Option<Case> {
         hash_seed: rng.next_u64(),
         reparse: vec![],
         run_static: false,
+        static_first: false,
         inspect: if rng.chance(1, 5) {
             Some((rng.next_u64(), 1, 3))
         } else {
@@ -723,6 +726,7 @@ fn huge_env_case(rng: &mut Rng) -> Case {
         hash_seed: rng.next_u64(),
         reparse: vec![],
         run_static: false,
+        static_first: false,
         inspect: Some((rng.next_u64(), 1, 1)),
         max_steps: 64,
         continue_after_error: false,
@@ -815,9 +819,8 @@ pub fn generate(prop: Prop, run_seed: u64, tier: Tier) -> Case {
     }
     match prop {
         Prop::C15 => c15_shape(&mut case, &mut rng),
-        Prop::C17 => {
-            // nothing extra: entropy is already seeded per run
-        }
+        Prop::C17 => c17_shape(&mut case, &mut rng),
+        Prop::C03 => c03_shape(&mut case, &mut rng),
         _ => {}
     }
     case
@@ -835,6 +838,12 @@ fn c15_shape(case: &mut Case, rng: &mut Rng) {
     let dut = case.duts[0].clone();
     case.duts = (0..iters).map(|_| dut.clone()).collect();
     case.entropy = (0..iters).map(|_| rng.next_u64()).collect();
+    case.schedule = interleaved_schedule(rng, iters, case.max_steps);
+    case.static_first = rng.chance(1, 2);
+}
+
+/// a seeded schedule of constructor, next() and vars() calls over `iters` iterators
+fn interleaved_schedule(rng: &mut Rng, iters: usize, max_steps: usize) -> Vec<Action> {
     let mut schedule = vec![];
     let policy = rng.below(4);
     match policy {
@@ -850,7 +859,7 @@ fn c15_shape(case: &mut Case, rng: &mut Rng) {
             for i in 0..iters {
                 schedule.push(Action::Construct(i as u8));
             }
-            for _ in 0..case.max_steps.min(100) {
+            for _ in 0..max_steps.min(100) {
                 for i in 0..iters {
                     schedule.push(Action::Next(i as u8));
                 }
@@ -859,7 +868,7 @@ fn c15_shape(case: &mut Case, rng: &mut Rng) {
         2 => {
             // random switching, constructors at random points
             let mut constructed = vec![false; iters];
-            for _ in 0..(case.max_steps.min(100) * iters) {
+            for _ in 0..(max_steps.min(100) * iters) {
                 let i = rng.usize(iters);
                 if !constructed[i] {
                     constructed[i] = true;
@@ -892,7 +901,77 @@ fn c15_shape(case: &mut Case, rng: &mut Rng) {
             }
         }
     }
-    case.schedule = schedule;
+    schedule
+}
+
+/// C03: a caller that asks for the static rows first, and a second run of the same test
+/// against a device that lists its outputs differently
+fn c03_shape(case: &mut Case, rng: &mut Rng) {
+    if rng.chance(1, 8) {
+        case.run_static = true;
+        case.static_first = true;
+    }
+    if !rng.chance(1, 5) {
+        return;
+    }
+    let first = case.duts[0].clone();
+    let mut layout: Vec<(SigSpec, SigBeh)> = case
+        .signals
+        .iter()
+        .filter(|s| s.is_output())
+        .map(|s| {
+            let beh = first
+                .layout
+                .iter()
+                .find(|(l, _)| l.name == s.name)
+                .map(|(_, b)| b.clone())
+                .unwrap_or(SigBeh::Tagged);
+            (s.clone(), beh)
+        })
+        .collect();
+    rng.shuffle(&mut layout);
+    if rng.chance(1, 2) && !layout.is_empty() {
+        let keep = rng.usize(layout.len() + 1);
+        layout.truncate(keep);
+    }
+    let names = |l: &Vec<(SigSpec, SigBeh)>| l.iter().map(|(s, _)| s.name.clone()).collect::<Vec<_>>();
+    if names(&layout) == names(&first.layout) {
+        if layout.len() >= 2 {
+            layout.reverse();
+        } else if !layout.is_empty() {
+            layout.clear();
+        } else {
+            return;
+        }
+    }
+    case.duts.push(crate::dut::DutSpec {
+        layout,
+        seed: rng.next_u64(),
+        overrides_write: rng.chance(1, 2),
+        faults: vec![],
+    });
+    case.entropy.push(rng.next_u64());
+    case.schedule = if rng.chance(1, 2) {
+        vec![
+            Action::Construct(0),
+            Action::Run(0),
+            Action::Construct(1),
+            Action::Run(1),
+        ]
+    } else {
+        interleaved_schedule(rng, 2, case.max_steps)
+    };
+}
+
+/// C17: two iterators over one test, each with its own entropy, interleaved
+fn c17_shape(case: &mut Case, rng: &mut Rng) {
+    if !rng.chance(1, 6) {
+        return;
+    }
+    let dut = case.duts[0].clone();
+    case.duts.push(dut);
+    case.entropy.push(rng.next_u64());
+    case.schedule = interleaved_schedule(rng, 2, case.max_steps);
 }
 
 // ---------------------------------------------------------------------------------------
@@ -926,12 +1005,25 @@ pub fn reference_for(case: &Case, out: &RunOut, iter_idx: usize) -> RefRun {
             .map(|(n, _)| n.to_string())
             .collect()
     };
+    // an iterator the schedule stopped stepping (neither finished nor capped): the reference
+    // pulls as many rows as the caller did
+    let ended = it.capped
+        || match it.steps.last().map(|s| &s.item) {
+            None | Some(Item::Row(_)) => false,
+            Some(Item::End) | Some(Item::Panic(_)) => true,
+            Some(_) => !case.continue_after_error,
+        };
+    let max_steps = if ended {
+        case.max_steps
+    } else {
+        it.steps.len().min(case.max_steps)
+    };
     run_reference(&RefInput {
         signals: &case.signals,
         program: &case.program,
         dut: &case.duts[iter_idx],
         draws: &draws,
-        max_steps: case.max_steps,
+        max_steps,
         virtual_order: &virtual_order,
         continue_after_error: case.continue_after_error,
     })
@@ -1022,6 +1114,13 @@ fn count_faults(case: &Case, out: &RunOut, f: &mut [u32; N_FAULT_KINDS]) {
     if out.iters.len() > 1 {
         f[20] += 1;
         f[21] += 1;
+        let names = |d: &crate::dut::DutSpec| d.layout.iter().map(|(s, _)| s.name.clone()).collect::<Vec<_>>();
+        if case.duts.iter().skip(1).any(|d| names(d) != names(&case.duts[0])) {
+            f[24] += 1;
+        }
+    }
+    if case.static_first && out.statik.is_some() {
+        f[25] += 1;
     }
     if !out.reparse.is_empty() {
         f[17] += out.reparse.len() as u32;
@@ -1250,6 +1349,35 @@ pub fn evaluate(prop: Prop, case: &Case) -> Eval {
                 .any(|s| matches!(&s.item, Item::Row(r) if !r.outputs.is_empty()));
             ev.nontrivial =
                 checked && (outs != lay || ev.faults[10] + ev.faults[11] + ev.faults[12] > 0);
+            // a second run of the same test against a device with another layout
+            for k in 1..out.iters.len() {
+                if ev.violation.is_some() {
+                    break;
+                }
+                let itk = &out.iters[k];
+                let rk = reference_for(case, &out, k);
+                ev.violation = oracle::c03_attribution(&out, itk)
+                    .or_else(|| {
+                        lockstep(&out, itk, &rk, case.duts[k].overrides_write, &|w| {
+                            matches!(w, What::DeviceOutputs | What::ItemClass)
+                        })
+                        .map(|m| Violation {
+                            oracle: "C03.attr_ref",
+                            detail: format!("{:?}: {}", m.what, m.detail),
+                        })
+                    })
+                    .map(|mut v| {
+                        v.detail = format!(
+                            "iterator #{k} of {} over one test (its device lists {:?}, the first \
+                             one {:?}): {}",
+                            out.iters.len(),
+                            case.duts[k].layout.iter().map(|(s, _)| s.name.as_str()).collect::<Vec<_>>(),
+                            lay,
+                            v.detail
+                        );
+                        v
+                    });
+            }
         }
         Prop::C04 => {
             ev.violation = oracle::c04_decode(case, &out, it).or_else(|| {
@@ -1385,27 +1513,15 @@ pub fn evaluate(prop: Prop, case: &Case) -> Eval {
             ev.nontrivial = r.probes[Probe::VirtualEvaluated as usize] >= 2 || p(Probe::VirtualReadsZx);
         }
         Prop::C17 => {
-            ev.violation = c17_log(case, &out).or_else(|| {
-                r.draw_mismatch.as_ref().map(|m| Violation {
-                    oracle: "C17.once",
-                    detail: m.clone(),
-                })
-            });
-            if ev.violation.is_none() && r.unspecified.is_none() && !r.truncated {
-                if r.draws_used != r.draws_total {
-                    ev.violation = Some(Violation {
-                        oracle: "C17.once",
-                        detail: format!(
-                            "the run logged {} draw events but the reference's evaluations \
-                             account for {} of them",
-                            r.draws_total, r.draws_used
-                        ),
-                    });
+            ev.violation = c17_iter(case, &out, 0, &r);
+            for k in 1..out.iters.len() {
+                if ev.violation.is_some() {
+                    break;
                 }
-            }
-            if ev.violation.is_none() {
-                ev.violation = trace_violation("C17.literal", &out, case, &r, &|w| {
-                    !matches!(w, What::Env)
+                let rk = reference_for(case, &out, k);
+                ev.violation = c17_iter(case, &out, k, &rk).map(|mut v| {
+                    v.detail = format!("iterator #{k} of {} over one test: {}", out.iters.len(), v.detail);
+                    v
                 });
             }
             if ev.violation.is_none() {
@@ -1467,8 +1583,37 @@ fn c18_no_outputs(case: &Case, out: &RunOut, r: &RefRun) -> Option<Violation> {
 }
 
 /// C17: invariants over the draw log itself
-fn c17_log(case: &Case, out: &RunOut) -> Option<Violation> {
-    let it = &out.iters[0];
+/// everything C17 demands of one iterator's history
+fn c17_iter(case: &Case, out: &RunOut, k: usize, r: &RefRun) -> Option<Violation> {
+    let it = &out.iters[k];
+    let mut v = c17_log(it).or_else(|| {
+        r.draw_mismatch.as_ref().map(|m| Violation {
+            oracle: "C17.once",
+            detail: m.clone(),
+        })
+    });
+    if v.is_none() && r.unspecified.is_none() && !r.truncated && r.draws_used != r.draws_total {
+        v = Some(Violation {
+            oracle: "C17.once",
+            detail: format!(
+                "the run logged {} draw events but the reference's evaluations account for {} \
+                 of them",
+                r.draws_total, r.draws_used
+            ),
+        });
+    }
+    if v.is_none() {
+        v = lockstep(out, it, r, case.duts[k].overrides_write, &|w| !matches!(w, What::Env)).map(|m| {
+            Violation {
+                oracle: "C17.literal",
+                detail: format!("{:?}: {}", m.what, m.detail),
+            }
+        });
+    }
+    v
+}
+
+fn c17_log(it: &IterHist) -> Option<Violation> {
     let log = all_draws(it);
     // shape: Bound, Draw, Value triples (nested randoms nest), Reset markers in between
     let mut stack: Vec<(i64, u32)> = vec![]; // (bound, draws seen)
@@ -1536,7 +1681,7 @@ fn c17_log(case: &Case, out: &RunOut) -> Option<Violation> {
             }
         }
     }
-    let _ = (case, pairs);
+    let _ = pairs;
     None
 }
 
@@ -1793,12 +1938,10 @@ fn eval_c13(case: &Case) -> Eval {
         .filter(|f| !matches!(f.kind, FaultKind::Value(..)))
         .cloned()
         .collect();
-    // replay of a double-fault violation: the case carries both driver errors and a caller
-    // that keeps iterating; it is judged as it stands
-    if explicit.len() == 2
-        && explicit.iter().all(|f| f.kind == FaultKind::Error)
-        && case.continue_after_error
-    {
+    // replay of a double-fault violation: the case carries both faults (two driver errors, or
+    // a same-length layout deviation followed by a driver error) and a caller that keeps
+    // iterating; it is judged as it stands
+    if explicit.len() == 2 && explicit[1].kind == FaultKind::Error && case.continue_after_error {
         ev.violation = c13_double(case, &mut ev);
         ev.nontrivial = true;
         return ev;
@@ -1970,6 +2113,18 @@ fn eval_c13(case: &Case) -> Eval {
                             }
                         }
                     }
+                    if let Item::Panic(p) = &s.item {
+                        viol = Some(Violation {
+                            oracle: "C13.panic",
+                            detail: format!(
+                                "after {:?} at call #{} (caller keeps iterating): {}",
+                                f.kind,
+                                f.at_call,
+                                p.show()
+                            ),
+                        });
+                        break;
+                    }
                 }
             }
             if let Some(v) = viol {
@@ -2001,6 +2156,46 @@ fn eval_c13(case: &Case) -> Eval {
                 break;
             }
             if ev.harness_error.is_some() {
+                break;
+            }
+        }
+    }
+    // a same-length layout deviation on a checked row, then a driver error at a later call,
+    // and a caller that keeps iterating: the later error still reaches the caller as the
+    // item of the next() whose call failed
+    if ev.violation.is_none() && ev.harness_error.is_none() && n >= 3 && lay >= 1 && case.duts[0].faults.is_empty() {
+        let checked: Vec<usize> = (1..n).filter(|&k| !base.calls[k].write_only).collect();
+        let mut tried = 0;
+        for &a in checked.iter() {
+            if tried >= 2 || a + 1 >= n {
+                break;
+            }
+            tried += 1;
+            let kind = if lay >= 2 && tried == 1 {
+                FaultKind::Swap(0, lay - 1)
+            } else {
+                FaultKind::SubstName(a % lay)
+            };
+            let mut bs = vec![a + 1, n - 1];
+            bs.dedup();
+            for b in bs {
+                let mut c = with_fault(&base_case, a as u64, kind.clone(), 7003);
+                c.duts[0].faults.push(Fault {
+                    at_call: b as u64,
+                    kind: FaultKind::Error,
+                    id: 7004,
+                });
+                c.continue_after_error = true;
+                if let Some(viol) = c13_double(&c, &mut ev) {
+                    ev.violation = Some(viol);
+                    ev.violating_case = Some(c);
+                    break;
+                }
+                if ev.harness_error.is_some() {
+                    break;
+                }
+            }
+            if ev.violation.is_some() || ev.harness_error.is_some() {
                 break;
             }
         }
@@ -2038,7 +2233,7 @@ fn c13_double(faulted: &Case, ev: &mut Eval) -> Option<Violation> {
             return Some(Violation {
                 oracle: "C13.passthrough",
                 detail: format!(
-                    "two driver errors, caller keeps iterating: call #{k} failed with driver \
+                    "two faults, caller keeps iterating: call #{k} failed with driver \
                      error #{}, but the next() that made the call returned {}",
                     f.id,
                     item.map(oracle::brief_item).unwrap_or("nothing".into())
@@ -2057,7 +2252,7 @@ fn c13_double(faulted: &Case, ev: &mut Eval) -> Option<Violation> {
             Item::Panic(p) => {
                 return Some(Violation {
                     oracle: "C13.panic",
-                    detail: format!("two driver errors, caller keeps iterating: {}", p.show()),
+                    detail: format!("two faults, caller keeps iterating: {}", p.show()),
                 })
             }
             Item::DriverErr(id) => {
